@@ -58,6 +58,8 @@ def check_C18(ctx, unit, nbits):
              "writes its own index; operator~ negates the bit value", 2)
     ctx.rule("T.prng-constants", "the published MT19937 and PCG32 constants all occur in the generator's functions; the "
              "bounded draw returns r % bound after rejecting r < threshold", 3)
+    ctx.rule("I.seed-complete", "seed() of both generators writes every data member on every path, and the lazy-refill "
+             "condition of mt19937::operator() is established when seed() returns (so re-seeding restarts the stream)", 2)
     ctx.rule("E.sort-swaps-only", "insertion_sort writes through its iterators only by std::swap, guarded by comp(*i, *j) "
              "with i before j (so the result is a permutation)", 1)
     for rec in recs_of(unit, BS):
@@ -308,6 +310,64 @@ def check_C18(ctx, unit, nbits):
                  "all %d published constants occur" % len(consts))
         for f in fs:
             RB.check_shifts(ctx, "B3.shift-range", f, {})
+    # (re)seeding establishes the complete generator state: every data member is written on every path of seed(), and
+    # for a generator that refills its state lazily the refill condition of the draw operator holds when seed() returns
+    for cls in ("frg::mt19937", "frg::pcg_basic32"):
+        recs = unit.record(cls)
+        seeds = [f for f in unit.functions if f.owner_cls == cls and f.name == "seed" and f.blocks]
+        if not recs or not seeds:
+            raise AnalysisBroken("anchor vanished: %s::seed" % cls)
+        fields = [fl["n"] for fl in recs[0]["fields"]]
+        draws = [f for f in unit.functions if f.owner_cls == cls and f.name == "operator()" and not f.params() and f.blocks]
+        for f in seeds:
+            def transfer(n, st):
+                w = write_of(n)
+                if w and w[0] and w[0][0] == "this" and len(w[0]) >= 2 and w[0][1] in fields:
+                    return [st | {w[0][1]}]
+                return [st]
+            _, ex = flow.run(f, [frozenset()], transfer, None)
+            miss = sorted({fl for st in ex for fl in fields if fl not in st})
+            problems = []
+            if miss or not ex:
+                problems.append("seed() leaves member(s) %s untouched on some path: re-seeding does not restart the stream" % miss)
+            # lazy refill: the branch of operator() whose arm rewrites the state array
+            for g in draws:
+                arrs = [fl["n"] for fl in recs[0]["fields"] if fl.get("extent")]
+                for blk in g.blocks.values():
+                    if blk.cond is None or len(g.branch_edges(blk.id)) != 2:
+                        continue
+                    rel = flow.fact_relation(g.node(blk.cond), True)
+                    if rel is None:
+                        continue
+                    pa, pb = path(rel[0]), path(rel[2])
+                    fld = [p_[1] for p_ in (pa, pb) if p_ and p_[0] == "this" and len(p_) == 2 and p_[1] in fields and p_[1] not in arrs]
+                    tsucc = [s_ for s_, _c, t_ in g.branch_edges(blk.id) if t_]
+                    refills = tsucc and any(write_of(x) and write_of(x)[0] and write_of(x)[0][:2] == ("this", a_) for a_ in arrs
+                                            for b_ in g.blocks.values() if g.dominates_block(tsucc[0], b_.id) for x in b_.nodes())
+                    if not fld or not refills:
+                        continue
+                    want = (canon(rel[0]).split("#")[0], rel[1], canon(rel[2]).split("#")[0])
+                    holds = False
+                    pos = f.positions()
+                    for r_ in [n for n in f.events()][-1:]:
+                        pass
+                    # facts at every exit: the relation must be implied on each path that reaches the exit
+                    exit_preds = [b_ for b_ in f.blocks.values() if f.exit in b_.live_succs()]
+                    holds = bool(exit_preds)
+                    for b_ in exit_preds:
+                        fs_ = list(flow.must_facts(f, b_.id))
+                        fs_ += [(c_, t_) for s_, c_, t_ in f.branch_edges(b_.id) if s_ == f.exit and c_ is not None]
+                        ok_b = False
+                        for c_, t_ in fs_:
+                            r2 = flow.fact_relation(c_, t_)
+                            if r2 and (canon(r2[0]).split("#")[0], r2[1], canon(r2[2]).split("#")[0]) == want:
+                                ok_b = True
+                        holds = holds and ok_b
+                    if not holds:
+                        problems.append("operator() refills the state when %s %s %s, which is not established when seed() returns: "
+                                        "the first draws after re-seeding come from the old state" % want)
+            ctx.inst("I.seed-complete", f.sig, not problems, f.loc, "; ".join(problems) if problems else
+                     "writes all of %s on every path%s" % (fields, "; refill condition of operator() holds at exit" if cls.endswith("mt19937") else ""), f)
     for f in unit.functions:
         if f.owner_cls == "frg::pcg_basic32" and f.name == "operator()" and len(f.params()) == 1:
             b = f.params()[0]["d"]
@@ -355,3 +415,107 @@ def _loopvars(f):
                 if l.kind == "DeclRefExpr":
                     out.add(l.d["d"])
     return out
+
+
+# ---- array concatenation ------------------------------------------------------------------------------------------
+
+def check_concat(ctx, unit):
+    """array_concat: every helper that copies one input array into the result writes res[at + j] = other[j] for
+    j in [0, extent(other)), and hands `at + extent(other)` on as the offset of the next piece (as the argument of the
+    next helper call, or as its return value).  Decided in polynomial normal form over (at, loop variable)."""
+    import re
+    from .poly import Poly, to_poly
+    ctx.rule("E.concat-offset", "array_concat: each piece is copied to res[at + j] for j in [0, extent of the piece) and the next "
+             "piece starts at at + extent (offset arithmetic in polynomial normal form)", 2)
+    top = unit.fns(uq="frg::array_concat")
+    if not top:
+        raise AnalysisBroken("anchor vanished: frg::array_concat instantiation")
+    helpers = [f for f in unit.functions if f.uq.startswith("frg::details::") and f.blocks and len(f.params()) >= 3]
+    helpers += [h for h in getattr(unit, "helpers", []) if h.uq.startswith("frg::details::") and len(h.params()) >= 3]
+    n_copy = 0
+    for f in helpers:
+        ps = f.params()
+        res = [p for p in ps if p["t"].startswith("frg::array<") and p["t"].endswith("&") and not p["t"].startswith("const")]
+        if not res:
+            continue
+        resd = res[0]["d"]
+        ats = [p["d"] for p in ps if re.match(r"^(size_t|unsigned long)$", p["t"])]
+        inits = RA.local_inits(f)
+
+        def leaf(x):
+            x = std_unwrap(x)
+            if x.kind == "DeclRefExpr":
+                d = x.d["d"]
+                if d in inits and not RA._reassigned(f, d):
+                    c = std_unwrap(inits[d]).cv()
+                    if c is not None:
+                        return Poly.const(c)
+                return Poly.sym("v%d" % d)
+            return None
+        problems = []
+        stores = []
+        for n in f.events():
+            if n.kind == "BinaryOperator" and n.op == "=":
+                l, r = std_unwrap(n.children[0]), std_unwrap(n.children[1])
+                if l.kind == "CXXOperatorCallExpr" and l.callee and l.callee.get("op") == "[]" and std_unwrap(l.args[0]).kind == "DeclRefExpr" \
+                        and std_unwrap(l.args[0]).d["d"] == resd and r.kind == "CXXOperatorCallExpr" and r.callee and r.callee.get("op") == "[]":
+                    stores.append((n, l, r))
+        if not stores:
+            continue
+        if len(ats) != 1:
+            problems.append("cannot identify the offset parameter")
+            atd = None
+        else:
+            atd = ats[0]
+        ext = None
+        for (n, l, r) in stores:
+            n_copy += 1
+            src = std_unwrap(r.args[0])
+            sp = [p for p in ps if src.kind == "DeclRefExpr" and p["d"] == src.d["d"]]
+            m = re.search(r"frg::array<.*, (\d+)(UL)?>", sp[0]["t"]) if sp else None
+            if not m:
+                problems.append("source of the copy at %s is not an input array parameter" % n.loc)
+                continue
+            ext = int(m.group(1))
+            pi, pj = to_poly(l.args[1], leaf), to_poly(r.args[1], leaf)
+            if pi is None or pj is None or atd is None or not (pi - pj == Poly.sym("v%d" % atd)):
+                problems.append("copy at %s writes res[%s] from other[%s]: destination is not at + source index" % (n.loc, canon(l.args[1]), canon(r.args[1])))
+            # source index is a loop variable bounded by the extent
+            jv = std_unwrap(r.args[1])
+            bounded = False
+            for cond, truth in flow.facts_at(f, n.id):
+                rel = flow.fact_relation(cond, truth)
+                if rel and rel[1] == "<" and std_unwrap(rel[0]).kind == "DeclRefExpr" and jv.kind == "DeclRefExpr" and std_unwrap(rel[0]).d["d"] == jv.d["d"]:
+                    b = to_poly(rel[2], leaf)
+                    if b == Poly.const(ext):
+                        bounded = True
+            if not bounded:
+                problems.append("copy loop at %s is not bounded by the extent %s of the piece" % (n.loc, ext))
+        # continuation offsets
+        conts = []
+        for n in f.events():
+            if n.is_call() and n.kind == "CallExpr" and n.callee and n.callee["uq"].startswith("frg::details::") and n.args \
+                    and std_unwrap(n.args[0]).kind == "DeclRefExpr" and std_unwrap(n.args[0]).d["d"] == resd and len(n.args) >= 2:
+                conts.append((n, n.args[1]))
+        for r_ in f.return_nodes():
+            if r_.child("val") is not None:
+                conts.append((r_, r_.child("val")))
+        if not conts:
+            problems.append("the offset of the next piece is neither passed on nor returned")
+        for (n, e) in conts:
+            pe = to_poly(e, leaf)
+            if atd is None or ext is None or pe is None or not (pe == Poly.sym("v%d" % atd) + Poly.const(ext)):
+                problems.append("next piece starts at %s (at %s), expected at + %s" % (canon(e), n.loc, ext))
+        ctx.inst("E.concat-offset", f.sig, not problems, f.loc, "; ".join(problems[:3]) if problems else
+                 "res[at + j] = piece[j], j < %s; next offset at + %s" % (ext, ext), f)
+    if n_copy < 2:
+        raise AnalysisBroken("anchor vanished: copy loops of array_concat's helpers (found %d)" % n_copy)
+    for f in top[:1]:
+        starts = [n for n in f.events() if n.is_call() and n.kind == "CallExpr" and n.callee and n.callee["uq"].startswith("frg::details::") and len(n.args) >= 2]
+        def zero(x):
+            x = std_unwrap(x)
+            if x.kind == "DeclRefExpr" and x.d["d"] in RA.local_inits(f):
+                x = std_unwrap(RA.local_inits(f)[x.d["d"]])
+            return x.cv() == 0
+        ok = bool(starts) and zero(starts[0].args[1])
+        ctx.inst("E.concat-offset", "frg::array_concat: first piece", ok, f.loc, "first piece starts at offset 0: %s" % ok, f)
